@@ -59,7 +59,26 @@ def observe(values, seeds, workers, tmp):
     return outs, later["loaded"]
 
 
+def deductive(ctx):
+    """engine D (syntactic call-site obligations): every sorted() in the hashing code sorts elements
+    with a total order, so its result is a function of the multiset of elements, not of their order"""
+    from contracts import sorted_sites as SS
+
+    ctx.trust("`<` is a total order on bytes, on str, on PurePath objects of one flavour, and on (str, bytes) pairs with distinct first components")
+    for oid, goal, ok, detail in SS.obligations():
+        ctx.add_function({"function": f"{detail['file']}:{detail['function']}", "line": detail["line"], "source_sha256": "", "lines": 0})
+        ctx.add_obligation({"id": oid, "function": f"{detail['file']}:{detail['function']}", "clause": "callee-pre.sorted.total-order", "role": "property:C07", "status": "discharged" if ok else "refuted", "backend": "syntactic call-site check", "time_s": 0.0, "goal": goal, "path": ""})
+        if not ok:
+            klass = "mapping-keys-not-totally-ordered" if detail["function"] == "bytes_repr_mapping_contents" else None
+            ctx.fail(klass, f"obligation {oid} refuted: {goal}", detail, obligation=oid, solver_output=None, found_input=False)
+
+
 def run(ctx):
+    deductive(ctx)
+    _run_bounded(ctx)
+
+
+def _run_bounded(ctx):
     ctx.level = "other"
     ctx.explanation = (
         "every value of the property's grammar (nested dicts/lists/tuples/sets, frozensets of frozensets, numbers, strings, bytes, paths, numpy arrays, files, objects, "
